@@ -2661,6 +2661,10 @@ Section Trace.
       repeat split; auto. intros a E; discriminate.
   Qed.
 
+  Lemma obs_get_bind {A} (P : obs ctx -> Prop) (f : istate ctx -> M A) s R :
+    obsAt P (f (m_i s)) s R -> obsAt P (bind get f) s R.
+  Proof. intros H s' r E. unfold Interp.bind, Interp.get in E. exact (H _ _ E). Qed.
+
   Lemma obs_ret {A} (P : obs ctx -> Prop) (a : A) s (R : A -> mstate -> Prop) : R a s -> obsAt P (ret a) s R.
   Proof. intros Hr s' r H. inversion H; subst. exists []. repeat split; auto. intros a0 E; inversion E; subst; auto. Qed.
 
@@ -2713,14 +2717,17 @@ Section Trace.
     destruct cd as [cd|].
     - destruct (exec_code (mk_call (m_i s) k o 0 (Some cd) ev) (i_ctx (m_i s))) as [[ctx' sent]|] eqn:E;
         destruct H as [Hs Hres]; subst s' r; simpl.
-      + exists [ObExec (mk_call (m_i s) k o 0 (Some cd) ev) (Some sent)]. repeat split; auto.
+      + exists [ObExec (mk_call (m_i s) k o 0 (Some cd) ev) (Some sent)].
+        split; [reflexivity|]. split.
         * constructor; auto. simpl. right. rewrite E. split; [discriminate|reflexivity].
         * intros a Ea. inversion Ea; subst. apply Hr. reflexivity.
-      + exists [ObExec (mk_call (m_i s) k o 0 (Some cd) ev) None]. repeat split; auto.
+      + exists [ObExec (mk_call (m_i s) k o 0 (Some cd) ev) None].
+        split; [reflexivity|]. split.
         * constructor; auto. simpl. right. rewrite E. split; [discriminate|reflexivity].
         * intros a Ea; discriminate.
     - destruct H as [Hs Hres]; subst s' r; simpl.
-      exists [ObExec (mk_call (m_i s) k o 0 None ev) (Some [])]. repeat split; auto.
+      exists [ObExec (mk_call (m_i s) k o 0 None ev) (Some [])].
+      split; [reflexivity|]. split.
       + constructor; auto. simpl. left. auto.
       + intros a Ea. inversion Ea; subst. apply Hr. reflexivity.
   Qed.
@@ -2778,4 +2785,550 @@ Section Trace.
     destruct (Hall _ _ H) as (new & Ht & Hf & _). exists new. auto.
   Qed.
 
+  (* the first sentence of C08_old: every evaluation is recorded with the __old__ found in the
+     store at that very moment, and evaluating does not change the interpreter state *)
+  Theorem C08_old_at_eval k o idx cd ev s s' r :
+    eval_cond k o idx cd ev s = (s', r) ->
+    exists c rb,
+      m_tr s' = ObEval c rb :: m_tr s /\ m_i s' = m_i s /\
+      rb = eval_code c (i_ctx (m_i s)) /\
+      cl_kind c = k /\ cl_owner c = o /\ cl_idx c = idx /\
+      cl_old c = match k with CInv | CPost => old_lookup o (i_old (m_i s)) | _ => None end.
+  Proof.
+    intros H. apply eval_cond_inv in H. cbv zeta in H. destruct H as [Hs Hr]. subst s'.
+    eexists. eexists. simpl. split; [reflexivity|]. split; [reflexivity|]. split; [reflexivity|].
+    destruct (call_is_mk (m_i s) k o idx (Some cd) ev) as (Hk & Ho & Hi & _).
+    repeat split; auto. apply C08_old_field.
+  Qed.
+
+  Lemma realises_nil_inv ig0 tr out : realises ig0 [] tr out -> tr = [].
+  Proof. intros H. inversion H; auto. Qed.
+
+  Lemma obs_of_plays {A} AE (P : obs ctx -> Prop) (m : M A) s (R : A -> mstate -> Prop) :
+    plays AE m s [] -> (forall x, is_call x = false -> P x) ->
+    (forall s' a, m s = (s', inl a) -> R a s') -> obsAt P m s R.
+  Proof.
+    intros Hp HP HR s' r H. destruct (Hp _ _ H) as (new & out & Ht & _ & Hr & _).
+    apply realises_nil_inv in Hr. exists new. split; auto. split.
+    - apply Forall_forall. intros x Hx. apply HP.
+      destruct (is_call x) eqn:E; auto.
+      assert (Hin : In x (calls (rev new))).
+      { unfold calls. apply filter_In. split; auto. apply in_rev. rewrite rev_involutive. auto. }
+      rewrite Hr in Hin. destruct Hin.
+    - intros a E. subst r. eapply HR; eauto.
+  Qed.
+
+  Lemma obs_iterM {A} (P : obs ctx -> Prop) (f : A -> M unit) (R : mstate -> Prop) l :
+    (forall x s1, R s1 -> obsAt P (f x) s1 (fun _ => R)) ->
+    forall s, R s -> obsAt P (iterM f l) s (fun _ => R).
+  Proof.
+    intros Hf. induction l as [|x l IH]; intros s Hs; simpl.
+    - apply obs_ret; auto.
+    - eapply obs_bind; [apply Hf; auto|]. intros u s1 H1. apply IH; auto.
+  Qed.
+
+  Lemma obs_mapM {A B} (P : obs ctx -> Prop) (f : A -> M B) (R : mstate -> Prop) l :
+    (forall x s1, R s1 -> obsAt P (f x) s1 (fun _ => R)) ->
+    forall s, R s -> obsAt P (mapM f l) s (fun _ => R).
+  Proof.
+    intros Hf. induction l as [|x l IH]; intros s Hs; simpl.
+    - apply obs_ret; auto.
+    - eapply obs_bind; [apply Hf; auto|]. intros u s1 H1.
+      eapply obs_bind; [apply IH; auto|]. intros u2 s2 H2. apply obs_ret; auto.
+  Qed.
+
+  Notation old_keeps := (keepsAt (list (owner * ctx)) (@i_old ctx)).
+
+  (* what a condition evaluated for owner o finds as __old__ when the store is `store` *)
+  Definition reads_store (k : ckind) (o : owner) (store : list (owner * ctx)) (x : obs ctx) : Prop :=
+    match x with
+    | ObEval c _ => cl_kind c = k /\ cl_owner c = o /\
+                    cl_old c = match k with CInv | CPost => old_lookup o store | _ => None end
+    | _ => True
+    end.
+
+  Lemma from_conds_reads i k o ev x : from_conds i k o ev x -> reads_store k o (i_old i) x.
+  Proof.
+    intros (idx & cd & E). subst x. unfold reads_store.
+    destruct (call_is_mk i k o idx (Some cd) ev) as (Hk & Ho & _).
+    split; [exact Hk|]. split; [exact Ho|]. apply C08_old_field.
+  Qed.
+
+  (* C08_old, exit: a state's postconditions read the store as it was when exit_state started;
+     exit_state itself never writes the store *)
+  Theorem C08_old_exit active ev st s s' r :
+    exit_state active ev st s = (s', r) ->
+    exists new,
+      m_tr s' = new ++ m_tr s /\
+      Forall (reads_store CPost (OState (s_name st)) (i_old (m_i s))) new /\
+      (forall a, r = inl a -> i_old (m_i s') = i_old (m_i s)).
+  Proof.
+    set (o := OState (s_name st)). set (store := i_old (m_i s)).
+    pose (R := fun (s1 : mstate) => i_old (m_i s1) = store).
+    assert (Hall : obsAt (reads_store CPost o store) (exit_state active ev st) s (fun _ => R)).
+    { unfold Interp.exit_state.
+      apply obs_bind with (R1 := fun _ => R).
+      { intros s1 r1 H1.
+        assert (Hk := K_run_code _ (@i_old ctx) _ _ _ _ _ (fun c i => eq_refl) _ _ H1).
+        apply run_code_inv in H1. cbv zeta in H1. destruct (s_on_exit st) as [cd|].
+        - destruct (exec_code (mk_call (m_i s) CExit (OState (s_name st)) 0 (Some cd) None) (i_ctx (m_i s)))
+            as [[ctx' sent]|]; destruct H1 as [Hs Hr]; subst s1; simpl;
+            eexists [_]; (split; [reflexivity|]); (split; [constructor; simpl; auto|]);
+            intros a _; exact Hk.
+        - destruct H1 as [Hs Hr]; subst s1; simpl.
+          eexists [_]. split; [reflexivity|]. split; [constructor; simpl; auto|]. intros a _; exact Hk. }
+      intros sent s1 H1.
+      apply obs_bind with (R1 := fun _ => R).
+      { eapply obs_of_plays; [apply plays_record_history| |].
+        - intros x Hx. destruct x; simpl in *; auto; discriminate.
+        - intros s2 a H2. unfold R in *.
+          rewrite (K_record_history _ (@i_old ctx) _ _ _ (fun c i => eq_refl) _ _ H2). auto. }
+      intros u2 s2 H2.
+      apply obs_get_bind.
+      apply obs_bind with (R1 := fun _ => R).
+      { intros s3 r3 H3. exists [].
+        destruct (mem (s_name st) (i_config (m_i s2))); inversion H3; subst; simpl;
+          (split; [reflexivity|]); (split; [constructor|]); intros a E; try discriminate.
+        exact H2. }
+      intros u3 s3 H3.
+      apply obs_bind with (R1 := fun _ => R).
+      { intros s4 r4 H4. unfold Interp.state_contract in H4. apply contract_obs in H4.
+        destruct H4 as (new & Ht & Hf & Hc & Ho). exists new.
+        assert (E4 : i_old (m_i s4) = store).
+        { rewrite Ho. unfold contract_old. destruct (i_ignore_contract (m_i s3)); auto. }
+        repeat split; auto.
+        eapply Forall_impl; [|exact Hf]. intros x Hx. apply from_conds_reads in Hx.
+        rewrite E4 in Hx. exact Hx. }
+      intros u4 s4 H4.
+      apply obs_bind with (R1 := fun _ => R).
+      { apply obs_raise_meta; simpl; auto. intros s5 E. unfold R in *. rewrite E. auto. }
+      intros u5 s5 H5. apply obs_ret. auto. }
+    intros H. destruct (Hall _ _ H) as (new & Ht & Hf & Hr). exists new. auto.
+  Qed.
+
+  (* C08_old, invariants at the end of the step: they read the store as it is then; checking
+     changes nothing in the interpreter state *)
+  Theorem C08_old_invariants ev s s' r :
+    check_invariants ev s = (s', r) ->
+    m_i s' = m_i s /\
+    exists new,
+      m_tr s' = new ++ m_tr s /\
+      Forall (fun x => exists o, reads_store CInv o (i_old (m_i s)) x /\
+                                 match x with ObExec _ _ => False | _ => True end) new.
+  Proof.
+    intros H. split; [eapply check_invariants_keeps; eauto|].
+    pose (R := fun (s1 : mstate) => m_i s1 = m_i s).
+    pose (P := fun x : obs ctx => exists o, reads_store CInv o (i_old (m_i s)) x /\
+                                 match x with ObExec _ _ => False | _ => True end).
+    assert (Hall : obsAt P (check_invariants ev) s (fun _ => R)).
+    { unfold Interp.check_invariants. apply obs_get_bind.
+      apply obs_iterM; [|reflexivity].
+      intros n s1 H1 s2 r2 H2. destruct (state_for sc n) as [st|].
+      - unfold Interp.state_contract in H2.
+        assert (Hk := contract_keeps _ _ _ _ _ _ _ _ _ (ltac:(discriminate) : CInv <> CPre) H2).
+        apply contract_obs in H2.
+        destruct H2 as (new & Ht & Hf & Hc & Ho). exists new.
+        split; [exact Ht|]. split.
+        + eapply Forall_impl; [|exact Hf]. intros x Hx. exists (OState (s_name st)).
+          assert (Hx' := from_conds_reads _ _ _ _ _ Hx). rewrite Hk, H1 in Hx'. split; auto.
+          destruct Hx as (idx & cd & E). subst x. exact I.
+        + intros a _. unfold R in *. congruence.
+      - inversion H2; subst. exists []. split; [reflexivity|]. split; [constructor|].
+        intros a E; discriminate. }
+    destruct (Hall _ _ H) as (new & Ht & Hf & _). exists new. auto.
+  Qed.
+
+  (* C08_old, entry: with contracts on and at least one invariant or postcondition, entering a
+     state stores under its name the context in which its preconditions were evaluated (they are
+     evaluated right after the store, on that same context, before the entry code runs); nothing
+     else in the store changes. *)
+  Theorem C08_old_state_entry ev st s s' a :
+    enter_state ev st s = (s', inl a) ->
+    let o := OState (s_name st) in
+    i_old (m_i s') = contract_old CPre o (s_post st) (s_inv st) (m_i s) /\
+    (exists pre_evals c,
+        m_tr s' = ObMeta (MEntered (s_name st)) :: ObExec c (Some a) :: pre_evals ++ m_tr s /\
+        Forall (fun x => exists c, x = ObEval c (eval_code c (i_ctx (m_i s))) /\ cl_kind c = CPre) pre_evals) /\
+    (ig s = false -> (s_inv st <> [] \/ s_post st <> []) ->
+     i_old (m_i s') = old_set o (i_ctx (m_i s)) (i_old (m_i s)) /\
+     old_lookup o (i_old (m_i s')) = Some (i_ctx (m_i s)) /\
+     forall o', owner_eqb o' o = false ->
+                old_lookup o' (i_old (m_i s')) = old_lookup o' (i_old (m_i s))).
+  Proof.
+    intros H o. unfold Interp.enter_state in H.
+    apply bind_inl in H. destruct H as (s1 & u1 & H1 & H).
+    unfold Interp.state_contract in H1. apply contract_obs in H1.
+    destruct H1 as (new1 & Ht1 & Hf1 & Hc1 & Ho1).
+    apply bind_inl in H. destruct H as (s2 & sent & H2 & H).
+    assert (Ho2 := K_run_code _ (@i_old ctx) _ _ _ _ _ (fun c i => eq_refl) _ _ H2).
+    apply run_code_inv in H2. cbv zeta in H2.
+    apply bind_inl in H. destruct H as (s3 & u3 & H3 & H).
+    assert (E3 : i_old (m_i s3) = i_old (m_i s2) /\ m_tr s3 = m_tr s2)
+      by (inversion H3; split; reflexivity).
+    clear H3. destruct E3 as [Ho3 Ht3].
+    apply bind_inl in H. destruct H as (s4 & u4 & Hm4 & H).
+    assert (Ho4 := K_raise_meta _ (@i_old ctx) _ _ _ _ Hm4).
+    assert (Ht4 : m_tr s4 = ObMeta (MEntered (s_name st)) :: m_tr s3).
+    { unfold Interp.raise_meta in Hm4.
+      destruct (emit (i_time (m_i s3)) (MEntered (s_name st)) (m_x s3)) as [x' [e|]];
+        inversion Hm4; reflexivity. }
+    assert (E4 : s' = s4 /\ a = sent) by (inversion H; auto). destruct E4; subst s4 sent.
+    assert (Eold : i_old (m_i s') = contract_old CPre o (s_post st) (s_inv st) (m_i s))
+      by (unfold o; congruence).
+    split; [exact Eold|]. split.
+    - assert (Hex : exists c, m_tr s2 = ObExec c (Some a) :: m_tr s1).
+      { destruct (s_on_entry st) as [cd|].
+        - destruct (exec_code (mk_call (m_i s1) CEntry (OState (s_name st)) 0 (Some cd) None) (i_ctx (m_i s1)))
+            as [[ctx' sent']|]; destruct H2 as [Hs Hr]; [|discriminate].
+          inversion Hr; subst. eexists; reflexivity.
+        - destruct H2 as [Hs Hr]. inversion Hr; subst. eexists; reflexivity. }
+      destruct Hex as (c & Hex). exists new1, c. split; [congruence|].
+      eapply Forall_impl; [|exact Hf1]. intros x (idx & cd & E). subst x. rewrite Hc1.
+      eexists. split; [reflexivity|]. apply call_is_mk.
+    - intros Hig Hne. unfold ig in Hig.
+      assert (E : contract_old CPre o (s_post st) (s_inv st) (m_i s)
+                  = old_set o (i_ctx (m_i s)) (i_old (m_i s))).
+      { unfold contract_old. rewrite Hig.
+        destruct (s_inv st) as [|x l]; [destruct (s_post st) as [|y l2]|]; auto.
+        destruct Hne; congruence. }
+      rewrite Eold, E. split; auto. split; [apply old_lookup_set_same|].
+      intros o' Hne'. apply old_lookup_set_other; auto.
+  Qed.
+
+  (* "i_old is written only by the CPre branch of contract": every other piece keeps it *)
+  Theorem C08_old_written_only_by_pre :
+    (forall k o cd ev s, old_keeps (run_code k o cd ev) s) /\
+    (forall k o idx cd ev s, old_keeps (eval_cond k o idx cd ev) s) /\
+    (forall k o pre post inv ev s, k <> CPre -> old_keeps (contract k o pre post inv ev) s) /\
+    (forall o pre post inv ev s s' r,
+        contract CPre o pre post inv ev s = (s', r) ->
+        i_old (m_i s') = contract_old CPre o post inv (m_i s)) /\
+    (forall active st s, old_keeps (record_history active st) s) /\
+    (forall m s, old_keeps (raise_meta m) s) /\
+    (forall e s, old_keeps (raise_event e) s) /\
+    (forall s, old_keeps compute_steps s) /\
+    (forall s, old_keeps consume_event s) /\
+    (forall ev s, old_keeps (check_invariants ev) s).
+  Proof.
+    repeat split.
+    - intros. apply K_run_code. intros c i; reflexivity.
+    - intros. apply K_eval_cond.
+    - intros k o pre post inv ev s Hk. apply K_same. intros s' r H. eapply contract_keeps; eauto.
+    - intros o pre post inv ev s s' r H. apply contract_obs in H.
+      destruct H as (new & _ & _ & _ & Ho). exact Ho.
+    - intros. apply K_record_history. intros m i; reflexivity.
+    - intros. apply K_raise_meta.
+    - intros. apply K_raise_event. intros e0 i. unfold queue_event. destruct (e_kind e0); reflexivity.
+    - intros. apply K_compute_steps. intros b i; reflexivity.
+    - intros. apply K_consume_event; intros q i; reflexivity.
+    - intros. apply K_same. intros s' r. apply check_invariants_keeps.
+  Qed.
+
+  (* ================================================================ the documented wording of the slots *)
+  (* The model calls the evaluator with the name stored in the state object (s_name st); the
+     documentation speaks of the names listed in the MicroStep.  Both agree when every state
+     object is registered under its own name (names_coherent). *)
+  Definition exit_slots_doc (ev : option event) (n : name) : list slot :=
+    match state_for sc n with
+    | Some st => [SExec CExit (OState n) (s_on_exit st) None; SConds CPost (OState n) (s_post st) ev]
+    | None => []
+    end.
+  Definition enter_slots_doc (ev : option event) (n : name) : list slot :=
+    match state_for sc n with
+    | Some st => [SConds CPre (OState n) (s_pre st) ev; SExec CEntry (OState n) (s_on_entry st) None]
+    | None => []
+    end.
+  Definition slots_of_micro_doc (step : microstep) : list slot :=
+    flat_map (exit_slots_doc (ms_event step)) (ms_exited step) ++
+    match ms_trans step with Some i => trans_slots (ms_event step) i | None => [] end ++
+    flat_map (enter_slots_doc (ms_event step)) (ms_entered step).
+  Definition inv_slots_doc (cfg : list name) (ev : option event) : list slot :=
+    flat_map (fun n => match state_for sc n with
+                       | Some st => [SConds CInv (OState n) (s_inv st) ev]
+                       | None => []
+                       end)
+             (configuration sc cfg).
+
+  Lemma exit_slots_doc_eq ev l : names_coherent -> forall sts,
+    states_for sc l = Some sts -> flat_map (exit_slots ev) sts = flat_map (exit_slots_doc ev) l.
+  Proof.
+    intros Hn. induction l as [|n l IH]; intros sts H; simpl in H.
+    - inversion H; auto.
+    - destruct (state_for sc n) as [st|] eqn:E; [|discriminate].
+      destruct (states_for sc l) as [r|]; [|discriminate]. inversion H; subst. simpl.
+      assert (Hd : exit_slots_doc ev n = exit_slots ev st)
+        by (unfold exit_slots_doc, exit_slots; rewrite E, (Hn _ _ E); reflexivity).
+      rewrite Hd, (IH r eq_refl). reflexivity.
+  Qed.
+
+  Lemma enter_slots_doc_eq ev l : names_coherent -> forall sts,
+    states_for sc l = Some sts -> flat_map (enter_slots ev) sts = flat_map (enter_slots_doc ev) l.
+  Proof.
+    intros Hn. induction l as [|n l IH]; intros sts H; simpl in H.
+    - inversion H; auto.
+    - destruct (state_for sc n) as [st|] eqn:E; [|discriminate].
+      destruct (states_for sc l) as [r|]; [|discriminate]. inversion H; subst. simpl.
+      assert (Hd : enter_slots_doc ev n = enter_slots ev st)
+        by (unfold enter_slots_doc, enter_slots; rewrite E, (Hn _ _ E); reflexivity).
+      rewrite Hd, (IH r eq_refl). reflexivity.
+  Qed.
+
+  Lemma slots_of_micro_doc_eq step :
+    names_coherent ->
+    states_for sc (ms_exited step) <> None -> states_for sc (ms_entered step) <> None ->
+    slots_of_micro step = slots_of_micro_doc step.
+  Proof.
+    intros Hn Hx He. unfold slots_of_micro, slots_of_micro_doc, opt_states.
+    destruct (states_for sc (ms_exited step)) as [xs|] eqn:Ex; [|congruence].
+    destruct (states_for sc (ms_entered step)) as [es|] eqn:Ee; [|congruence].
+    rewrite (exit_slots_doc_eq _ _ Hn _ Ex), (enter_slots_doc_eq _ _ Hn _ Ee). reflexivity.
+  Qed.
+
+  Lemma inv_slots_doc_eq cfg ev : names_coherent -> inv_slots cfg ev = inv_slots_doc cfg ev.
+  Proof.
+    intros Hn. unfold inv_slots, inv_slots_doc. apply flat_map_ext. intros n.
+    destruct (state_for sc n) as [st|] eqn:E; auto. rewrite (Hn _ _ E). reflexivity.
+  Qed.
+
+  Lemma chain_slots_doc s l s' :
+    names_coherent -> chain s l s' ->
+    flat_map slots_of_micro l = flat_map slots_of_micro_doc l.
+  Proof.
+    intros Hn H. induction H as [s|step s s1 a l s2 Ha H IH]; simpl; auto.
+    rewrite IH. f_equal.
+    assert (Hr := apply_step_result _ _ _ _ Ha).
+    apply apply_step_cfg in Ha. destruct Ha as (_ & _ & Hx & He).
+    rewrite Hr. apply slots_of_micro_doc_eq; auto.
+  Qed.
+
+  (* C08_apply_step_points / C08_execute_once_points with the documented wording *)
+  Theorem C08_apply_step_points_doc step s s' a :
+    names_coherent -> ig s = false ->
+    apply_step step s = (s', inl a) ->
+    exists new, m_tr s' = new ++ m_tr s /\
+                realises false (slots_of_micro_doc step) (calls (rev new)) RDone.
+  Proof.
+    intros Hn Hig H. assert (H0 := H). apply C08_apply_step_complete in H; auto.
+    destruct H as (new & Ht & Hr & _). exists new. split; auto.
+    apply apply_step_cfg in H0. destruct H0 as (_ & _ & Hx & He).
+    rewrite <- slots_of_micro_doc_eq; auto.
+  Qed.
+
+  Theorem C08_execute_once_points_doc fuel now s s' t steps :
+    names_coherent -> ig s = false ->
+    execute_once fuel now s = (s', inl (Some (t, steps))) ->
+    t = now /\
+    exists new guards r1 r2,
+      m_tr s' = new ++ m_tr s /\
+      calls (rev new) = guards ++ r1 ++ r2 /\
+      Forall guard_ok guards /\
+      realises false (flat_map slots_of_micro_doc steps) r1 RDone /\
+      realises false (inv_slots_doc (i_config (m_i s')) (macro_event steps)) r2 RDone /\
+      i_config (m_i s') = fold_left cfg_step_doc steps (i_config (m_i s)).
+  Proof.
+    intros Hn Hig H. assert (H0 := H). assert (H1 := H).
+    apply C08_execute_once_points in H.
+    destruct H as (Et & Hne & new & gs & r1 & r2 & Ht & Ec & Hg & R1 & R2 & _).
+    split; auto. exists new, gs, r1, r2. rewrite Hig in *.
+    apply execute_once_chain in H0.
+    destruct H0 as (s1 & s2 & l & Hc & _ & _ & _ & _ & [[E0 _]|(t0 & E0)]); [discriminate|].
+    inversion E0; subst l.
+    rewrite <- (chain_slots_doc _ _ _ Hn Hc), <- inv_slots_doc_eq; auto.
+    repeat split; auto.
+    apply C03_macro_config in H1. destruct H1 as [_ H1]. apply H1; auto.
+  Qed.
+
 End Trace.
+
+(* ------------------------------------------------------------------ assumptions *)
+Print Assumptions C08_apply_step_points.
+Print Assumptions C08_apply_step_complete.
+Print Assumptions C08_first_failure_micro.
+Print Assumptions C08_first_raise_micro.
+Print Assumptions C03_sent_truth.
+Print Assumptions C03_config_truth_gen.
+Print Assumptions C03_config_truth.
+Print Assumptions C08_execute_once_run.
+Print Assumptions C08_execute_once_points.
+Print Assumptions C08_execute_once_empty.
+Print Assumptions C03_trace_truth.
+Print Assumptions C03_macro_config.
+Print Assumptions C08_first_failure.
+Print Assumptions C08_first_raise.
+Print Assumptions C08_old_at_eval.
+Print Assumptions C08_old_transition.
+Print Assumptions C08_old_state_entry.
+Print Assumptions C08_old_exit.
+Print Assumptions C08_old_invariants.
+Print Assumptions C08_old_written_only_by_pre.
+Print Assumptions C09_ignore_silent_micro.
+Print Assumptions C09_ignore_silent.
+Print Assumptions C09_flag_constant.
+Print Assumptions C08_apply_step_points_doc.
+Print Assumptions C08_execute_once_points_doc.
+
+(* ------------------------------------------------------------------ non-vacuity *)
+Module TraceExample.
+  Open Scope string_scope.
+
+  (* contexts are counters of executed code fragments *)
+  Definition ectx := nat.
+  Definition ex_exec (c : call ectx) (n : ectx) : option (ectx * list event) :=
+    match cl_code c with
+    | Some "boom" => None
+    | Some "act" => Some (S n, [mkEvent Internal "ping" []])
+    | _ => Some (S n, [])
+    end.
+  Definition ex_eval (c : call ectx) (n : ectx) : option bool :=
+    match cl_code c with
+    | Some "false" => Some false
+    | Some "raise" => None
+    | _ => Some true
+    end.
+  Definition ex_emit (_ : Z) (_ : meta) (x : unit) : unit * option err := (x, None).
+
+  Definition st_root := mkState "root" KCompound (Some "a") None None None [] [] [].
+  Definition st_a := mkState "a" KBasic None None (Some "ea") (Some "xa") ["pa"] ["qa"] ["ia"].
+  Definition st_b (inv : list code) := mkState "b" KBasic None None (Some "eb") None ["pb"] [] inv.
+  Definition tr0 := mkTrans "a" (Some "b") (Some "go") (Some "g") (Some "act") 0 ["tp"] ["tq"] ["ti"].
+  Definition ex_chart (invb : list code) : chart :=
+    mkChart "ex" None None
+      [("root", st_root); ("a", st_a); ("b", st_b invb)]
+      [("root", None); ("a", Some "root"); ("b", Some "root")]
+      [(None, ["root"]); (Some "root", ["a"; "b"]); (Some "a", []); (Some "b", [])]
+      [tr0].
+
+  (* first call: initialisation; second call: the event "go" fires a -> b *)
+  Definition run1 (invb : list code) (ign : bool) :=
+    execute_once ectx unit ex_exec ex_eval ex_emit (ex_chart invb) 10 0
+      (mkM (init_istate 0 0 ign 0) tt []).
+  Definition start2 (invb : list code) (ign : bool) : mstate ectx unit :=
+    let s1 := fst (run1 invb ign) in
+    let s1' := fst (queue ectx unit (mkEvent External "go" []) s1) in
+    mkM (m_i s1') tt [].
+  Definition run2 (invb : list code) (ign : bool) :=
+    execute_once ectx unit ex_exec ex_eval ex_emit (ex_chart invb) 10 1 (start2 invb ign).
+
+  Definition summary (x : obs ectx) : string * ckind * owner * nat * option bool :=
+    match x with
+    | ObExec c r => ("exec", cl_kind c, cl_owner c, cl_idx c,
+                     match r with Some _ => Some true | None => None end)
+    | ObEval c r => ("eval", cl_kind c, cl_owner c, cl_idx c, r)
+    | ObMeta _ => ("meta", CGuard, OTrans 0, 0, None)
+    | ObSelected _ => ("sel", CGuard, OTrans 0, 0, None)
+    end.
+  Definition trace_of {A} (r : mstate ectx unit * A) :=
+    map summary (calls ectx (rev (m_tr (fst r)))).
+
+  Definition go := mkEvent External "go" [].
+  Definition step_ab :=
+    mkMicro (Some go) (Some 0) ["b"] ["a"] [mkEvent Internal "ping" []].
+
+  (* initialisation: entry of root (no code, still a call), then a's precondition, entry code and,
+     at the end of the step, a's invariant *)
+  Example ex_run1 :
+    trace_of (run1 ["ib"] false) =
+      [("exec", CEntry, OState "root", 0, Some true);
+       ("eval", CPre, OState "a", 0, Some true);
+       ("exec", CEntry, OState "a", 0, Some true);
+       ("eval", CInv, OState "a", 0, Some true)].
+  Proof. vm_compute. reflexivity. Qed.
+
+  (* a transition step: guard block; exit a + post(a); pre, inv, action, post, inv of the
+     transition; pre(b) + entry b; invariants of the final configuration (root has none) *)
+  Example ex_run2 :
+    trace_of (run2 ["ib"] false) =
+      [("eval", CGuard, OTrans 0, 0, Some true);
+       ("exec", CExit, OState "a", 0, Some true);
+       ("eval", CPost, OState "a", 0, Some true);
+       ("eval", CPre, OTrans 0, 0, Some true);
+       ("eval", CInv, OTrans 0, 0, Some true);
+       ("exec", CAction, OTrans 0, 0, Some true);
+       ("eval", CPost, OTrans 0, 0, Some true);
+       ("eval", CInv, OTrans 0, 0, Some true);
+       ("eval", CPre, OState "b", 0, Some true);
+       ("exec", CEntry, OState "b", 0, Some true);
+       ("eval", CInv, OState "b", 0, Some true)]
+    /\ snd (run2 ["ib"] false) = inl (Some (1%Z, [step_ab])).
+  Proof. vm_compute. split; reflexivity. Qed.
+
+  (* the hypotheses of the theorems are satisfiable: instance of C08_execute_once_points *)
+  Example ex_points_instance :
+    let s := start2 ["ib"] false in
+    let s' := fst (run2 ["ib"] false) in
+    exists new guards r1 r2,
+      m_tr s' = (new ++ m_tr s)%list /\
+      calls ectx (rev new) = (guards ++ r1 ++ r2)%list /\
+      Forall (guard_ok ectx) guards /\
+      realises ectx false (flat_map (slots_of_micro (ex_chart ["ib"])) [step_ab]) r1 RDone /\
+      realises ectx false (inv_slots (ex_chart ["ib"]) (i_config (m_i s')) (Some go)) r2 RDone.
+  Proof.
+    intros s s'.
+    assert (E : execute_once ectx unit ex_exec ex_eval ex_emit (ex_chart ["ib"]) 10 1 s
+                = (s', inl (Some (1%Z, [step_ab])))).
+    { unfold s, s'. fold (run2 ["ib"] false). destruct ex_run2 as [_ H]. rewrite <- H.
+      apply surjective_pairing. }
+    apply C08_execute_once_points in E.
+    destruct E as (_ & _ & new & gs & r1 & r2 & Ht & Ec & Hg & R1 & R2 & _).
+    exists new, gs, r1, r2. auto.
+  Qed.
+
+  Lemma ex_emit_clean : emit_clean unit ex_emit.
+  Proof. intros e (t & m & x & H). discriminate. Qed.
+
+  (* first failure: the second invariant of b is false; the third one is never evaluated, the
+     error names kind/owner/index, and the failing evaluation is the newest observation *)
+  Example ex_first_failure :
+    trace_of (run2 ["ib"; "false"; "never"] false) =
+      [("eval", CGuard, OTrans 0, 0, Some true);
+       ("exec", CExit, OState "a", 0, Some true);
+       ("eval", CPost, OState "a", 0, Some true);
+       ("eval", CPre, OTrans 0, 0, Some true);
+       ("eval", CInv, OTrans 0, 0, Some true);
+       ("exec", CAction, OTrans 0, 0, Some true);
+       ("eval", CPost, OTrans 0, 0, Some true);
+       ("eval", CInv, OTrans 0, 0, Some true);
+       ("eval", CPre, OState "b", 0, Some true);
+       ("exec", CEntry, OState "b", 0, Some true);
+       ("eval", CInv, OState "b", 0, Some true);
+       ("eval", CInv, OState "b", 1, Some false)]
+    /\ snd (run2 ["ib"; "false"; "never"] false) = inr (EContract CInv (OState "b") 1)
+    /\ option_map summary (hd_error (m_tr (fst (run2 ["ib"; "false"; "never"] false))))
+       = Some ("eval", CInv, OState "b", 1, Some false)
+    (* __old__ of b's invariant = the context (3 fragments executed) in which b's preconditions
+       were evaluated, before its entry code made it 4 *)
+    /\ match hd_error (m_tr (fst (run2 ["ib"; "false"; "never"] false))) with
+       | Some (ObEval c _) => cl_old c = Some 3
+       | _ => False
+       end
+    /\ i_ctx (m_i (fst (run2 ["ib"; "false"; "never"] false))) = 4.
+  Proof. vm_compute. repeat split; reflexivity. Qed.
+
+  (* ignore_contract: same chart, nothing but the guard is evaluated, no contract error *)
+  Example ex_ignore :
+    trace_of (run2 ["ib"; "false"; "never"] true) =
+      [("eval", CGuard, OTrans 0, 0, Some true);
+       ("exec", CExit, OState "a", 0, Some true);
+       ("exec", CAction, OTrans 0, 0, Some true);
+       ("exec", CEntry, OState "b", 0, Some true)]
+    /\ snd (run2 ["ib"; "false"; "never"] true) = inl (Some (1%Z, [step_ab])).
+  Proof. vm_compute. split; reflexivity. Qed.
+
+  (* Why C03_config_truth needs names_coherent: a state object named "b" registered under the key
+     "a".  Entering "a" puts "b" into the configuration (the model, like sismic, uses the name
+     stored in the object), so the fold over the names of the MicroStep gives another result. *)
+  Definition bad_chart : chart :=
+    mkChart "bad" None None
+      [("a", mkState "b" KBasic None None None None [] [] [])]
+      [("a", None)] [(None, ["a"])] [].
+  Definition bad_step := mkMicro None None ["a"] [] [].
+
+  Example C03_config_truth_needs_coherence :
+    let r := apply_step ectx unit ex_exec ex_eval ex_emit bad_chart bad_step
+               (mkM (init_istate 0 0 false 0) tt []) in
+    snd r = inl bad_step /\
+    i_config (m_i (fst r)) = ["b"] /\
+    fold_left (fun c n => set_add n c) (ms_entered bad_step)
+      (fold_left (fun c n => remove_first n c) (ms_exited bad_step) []) = ["a"].
+  Proof. vm_compute. repeat split; reflexivity. Qed.
+End TraceExample.
